@@ -98,6 +98,28 @@ def histSched : TState → List Op → Bool
   | _, [] => true
   | s, op :: rest => schedOK s op && histSched (step s op) rest
 
+/-! ### devicehandler_gpu.go fillGPUTotalMem (GPU dimensions: 0 gpu-core, 1 gpu-memory, 2 gpu-memory-ratio)
+
+After the fit check the allocation gets the memory dimension the pod did NOT request, derived from the other one and
+the card's total memory `tot`: `memoryRatioToBytes = ratio * tot / 100` (integer division) or `memoryBytesToRatio =
+int64(float64(bytes) / float64(tot) * 100)` — a float computation, passed in as `b2r` (bytes → total → ratio). -/
+
+def fillMem (b2r : Int → Int → Int) (tot : Int) (req : RL) : RL :=
+  match rlAt req 1, rlAt req 2 with
+  | some _, some _ => req
+  | some b, none => [rlAt req 0, some b, some (b2r b tot)]
+  | none, some r => [rlAt req 0, some (r * tot / 100), some r]
+  | none, none => [rlAt req 0, none, some (0 * tot / 100)]   -- `gpuMemRatio` is the zero Quantity: gpu-memory := 0
+
+/-- the exact integer reading of memoryBytesToRatio (equal to the float one whenever the quotient is exact) -/
+def b2rFloor (b tot : Int) : Int := b * 100 / tot
+
+/-- Reserve of a GPU pod on one card: fit check on the REQUESTED names, then commit of the filled allocation -/
+def reserveGPU (b2r : Int → Int → Int) (s : TState) (p : Nat) (req : RL) : Option TState :=
+  match allocate s { req := req, desired := 1, npcie := 0, required := [], preferred := [] } with
+  | none => none
+  | some ms => some (addT s p (ms.map (fun m => (m, fillMem b2r (drVal s.total m 1) req))))
+
 /-! ### informer events: eventhandler_pod.go updatePod / deletePod, seen from ONE device type
 
 A pod object as the handlers read it: `assigned` ⇔ `Spec.NodeName != ""`, `terminated` ⇔ `util.IsPodTerminated`,
